@@ -13,6 +13,31 @@ from .. import symla
 from . import symla_systems
 
 
+def native_flows(run_):
+    """BOUNDED native stand-in for what Engine B cannot decide: code that compares computed eigenvalues / frequencies with a floating-point TOLERANCE (np.allclose,
+    rank tolerances) takes branches that have no counterpart over the reals.  The real flows and flow Jacobians of every system class are run on 8 metrics incl.
+    two nearly isotropic ones (eigenvalues distinct but equal to 1e-6) for time intervals up to 7000, and compared with numerically integrated Hamilton equations
+    (short intervals), the group laws, energy conservation and the exact Jacobian of the (linear) flow."""
+    import os
+    import subprocess
+    from .. import core
+    script = os.path.join(core.VERIF, "replays", "c07_flows.py")
+    try:
+        p = subprocess.run([core.NATIVE_PY, script, "{}"], capture_output=True, text=True, timeout=900, env=dict(os.environ, PYTHONPATH=core.SRC))
+        out = p.stdout.strip()
+        ok = p.returncode == 0 and "not reproduced" in out
+        st = core.DISCHARGED if ok else (core.FAILED if "REPRODUCED" in out else core.ERROR)
+        detail = "" if ok else (out or p.stderr)[-700:]
+    except Exception as e:  # noqa: BLE001
+        st, detail = core.ERROR, f"{type(e).__name__}: {e}"
+    run_.ob("systems.native-flows/flows-and-flow-jacobians-incl-nearly-isotropic-metrics-and-long-intervals", st, "native-exec", klass="bounded", detail=detail,
+            witness=None if st == core.DISCHARGED else {"script": "c07_flows.py"},
+            replay=(lambda w: {"script": "c07_flows.py", "args": ["{}"], "timeout": 900}) if st == core.FAILED else None,
+            text="bounded: 4 system classes x 8 metrics (two nearly isotropic) x 4-6 time intervals (|t| up to 7000): kick, drift vs RK4, group law, inverse, energy, flow Jacobian")
+    run_.bounded.append({"id": "C07/systems.native-flows/flows-and-flow-jacobians-incl-nearly-isotropic-metrics-and-long-intervals",
+                         "detail": "n = 3, 8 metrics, 4 system classes, fixed seed; tolerances 1e-6"})
+
+
 def run(run_, tier):
     run_.assume("A1 reals; A4 user derivative functions exact; dimension 2; trigonometric identities decided by sympy (expand_trig + sin^2+cos^2=1)")
     for k, v in symla.SHIM_TABLE.items():
@@ -23,6 +48,7 @@ def run(run_, tier):
     run_.replay_for("", lambda w: {"script": "c07_flows.py", "args": [json.dumps(w or {})], "timeout": 600})
     n = symla_systems.run_cases(run_, "c07_cases")
     run_.notes.append(f"{n} system x metric configurations")
+    native_flows(run_)
     # Engine D: the Euclidean drift for ALL dimensions and every metric object satisfying the matrix contract
     from . import generic_systems
     generic_systems.run_generic_systems(run_, keep=lambda oid: any(t in oid for t in ("h2_flow", "h2-conserved", "dh2_flow_dmom", "metric-inverse")))
